@@ -108,6 +108,7 @@ func runC18(c *config) {
 
 	// 2. keywords through parse and print of a minimal module
 	c18Modules(c, vals)
+	c18ConstExprs(c, vals) // constant expressions as carriers of flags and predicates (c18cexpr.go)
 	c18Headers(c, vals, newRng(c.seed, "c18headers"))
 	c18DI(c, vals)
 
